@@ -402,6 +402,7 @@ func init() {
 func (c *Ctx) inLoopFacts(f *ssa.Function, blk *ssa.BasicBlock) map[string]bool {
 	out := map[string]bool{}
 	for _, bf := range branchFacts(f) {
+		curEnv = bf.A.Env
 		if !(reach(bf.E.From, nil, nil)[blk] && reach(blk, nil, nil)[bf.E.From]) {
 			continue
 		}
@@ -572,6 +573,7 @@ func ruleOU8(c *Ctx) {
 			// every way into this return must have passed a display-width comparison
 			check := func(target *ssa.BasicBlock, extra *edge) bool {
 				for _, bf := range branchFacts(f) {
+					curEnv = bf.A.Env
 					if bf.A.Kind != "cmp" || !(isWidthCall(bf.A.X) || isWidthCall(bf.A.Y)) {
 						continue
 					}
